@@ -110,6 +110,142 @@ def std_case(rng, V, sos, N, T, B, dicts, p_sos=0.15):
                              "chunks": chunks, "idxs": idxs})
 
 
+# ------------------------------------------------------------------ designed sparsity: the two paths of the descent
+# `_lookup_calc_idx_log_probs` walks the reverse trie along two paths per history window `h`: the N-GRAM path
+# (nodes `h[-d:] + (w,)`, one per candidate token w) and the CONTEXT path (nodes `h[-d:]`, whose back-off weights are
+# accumulated). Which of the two survives to which depth is decided by the sparsity of the table, and a random table
+# practically never has a long context listed while nothing at all continues its last token (or the reverse). The
+# generator below builds both situations on purpose: "context path alive down to depth dc, every n-gram path dead
+# below depth dn" for EVERY pair (dc, dn), with nothing else in the table resurrecting either path, finite unigrams
+# and non-zero back-off weights (so that a weight that is dropped or counted twice changes the number), evaluated
+# alone (batch of one: chunk size 1, scalar idx - every element of the kernel call dies at the same level), next to
+# a copy of itself and next to a history whose n-grams match down to the highest order.
+PATH_BATCH = ("lonely", "same", "mate")
+
+
+def nz_grid(rng, lo=-4):
+    """A non-zero value on the 1/8 grid in [lo, -1/8]."""
+    return frac_str(Fraction(rng.randrange(lo * 8, 0), 8))
+
+
+def gen_path_case(rng, V, sos, N, dc, dn, batch):
+    """Order-N table (N >= 2, at least two tokens) around one window `win` of N-1 tokens:
+    * dc in 0..N-1: the suffixes of `win` up to length dc are listed as contexts (length dc always, with a NON-ZERO
+      back-off; shorter ones listed or left to the implicit (-inf, 0) placeholders); nothing ends with a longer one;
+    * dn in 0..N-1: n-grams `win[-d:] + (w,)` exist for d <= dn (depth dn for at least one w, finite or -inf);
+      NO key of any order continues `win[-(dn+1):]` with any token - not even as an implicit suffix placeholder;
+    * a 'mate' window whose N-gram is listed at every order (its last token and its next token differ from win[-1],
+      so none of its keys - or their suffixes - touches the two paths of `win`), a few random distractors that are
+      rejected when they would resurrect a path."""
+    shift = 0 if 0 <= sos < V else 1
+    toks = list(range(V)) + ([sos] if shift else [])
+    W = N - 1
+    if len(toks) >= W and rng.random() < 0.7:
+        win = rng.sample(toks, W)                      # distinct tokens: the designed depths are the realised ones
+    else:
+        win = [rng.choice(toks) for _ in range(W)]     # repeated tokens: suffixes of the context may continue it
+    win = tuple(win)
+    last = win[-1]
+    others = [t for t in range(V) if t != last] or list(range(V))
+    tabs = [dict() for _ in range(N)]
+
+    def put(key, logp=None, nonzero=False, p_inf=0.25):
+        key = tuple(key)
+        e = {"key": list(key), "logp": logp if logp is not None else (NEG_INF if rng.random() < p_inf else grid(rng))}
+        if len(key) < N:
+            e["logb"] = nz_grid(rng) if (nonzero or rng.random() < 0.7) else "0"
+        tabs[len(key) - 1][key] = e
+
+    def resurrects(key):
+        key = tuple(key)
+        if len(key) >= dn + 2 and key[-(dn + 2):-1] == win[W - (dn + 1):]:
+            return True                                # would continue the n-gram path one level further
+        c = max(dc, 1)                                 # (the unigram node of win[-1] always exists)
+        if c + 1 <= W and len(key) >= c + 1 and key[-(c + 1):] == win[W - (c + 1):]:
+            return True                                # would continue the context path one level further
+        return False
+    for t in toks:                                     # unigrams: mostly listed and finite (a -inf unigram hides
+        if rng.random() < 0.85:                        # every error in the back-off weights)
+            put((t,), p_inf=0.05)
+    for d in range(1, dc + 1):                         # the context path
+        if d == dc or rng.random() < 0.6:
+            put(win[W - d:], nonzero=True)
+    for d in range(1, dn + 1):                         # the n-gram paths
+        ws = [w for w in range(V) if rng.random() < 0.4]
+        if d == dn and not ws:
+            ws = [rng.randrange(V)]
+        for w in ws:
+            if not resurrects(win[W - d:] + (w,)):
+                put(win[W - d:] + (w,))
+    # the mate: an N-gram listed at the highest order, far from both paths
+    mate = tuple(rng.choice(toks) for _ in range(W - 1)) + (rng.choice(others),)
+    top = mate + (rng.choice(others),)
+    put(top, logp=grid(rng))
+    if rng.random() < 0.7:
+        put(mate, nonzero=True)
+    for d in range(1, W):
+        if rng.random() < 0.4:
+            put(top[N - 1 - d:])
+    for _ in range(rng.randrange(0, 4)):               # distractors
+        k = tuple(rng.choice(toks) for _ in range(rng.randrange(2, N + 1)))
+        if not resurrects(k):                          # (a suffix of k ends with a pattern only if k does)
+            put(k)
+    dicts = [list(d.values()) for d in tabs]
+    pre = [rng.choice(toks) for _ in range(rng.randrange(0, 3))]
+    col = pre + list(win)
+    T = len(col)
+    if batch == "lonely":
+        cols = [col]
+    elif batch == "same":
+        cols = [col] * rng.choice((2, 3))
+    else:
+        mcol = [rng.choice(toks) for _ in range(T - W)] + list(mate)
+        cols = [col, mcol] if rng.random() < 0.5 else [mcol, col]
+    B = len(cols)
+    hist = [[c[t] for c in cols] for t in range(T)]
+    idxs = [[T], [max(T - 1, 0)], [0], [T] * B, [rng.randrange(T + 1) for _ in range(B)],
+            [rng.randrange(T + 1) for _ in range(B)]]
+    case = {"kind": "table", "V": V, "sos": sos, "dicts": dicts, "B": B, "hist": hist,
+            "chunks": list(range(1, T + 3)), "idxs": idxs, "paths": {"dc": dc, "dn": dn, "batch": batch}}
+    return pick_layout(rng, case, p_contig=0.6)
+
+
+def path_depths(case):
+    """What the table does to the two paths, per single-position kernel call (chunk size 1 / scalar idx: all batch
+    elements at one position): the level at which EVERY n-gram path of the call is dead, and the deepest level at
+    which some element's context still contributes a non-zero back-off / is still a node; the reverse per element.
+    Returns the tags of the classes the case reaches."""
+    dicts, N, V, sos, B = case["dicts"], len(case["dicts"]), case["V"], case["sos"], case["B"]
+    if N < 2:
+        return []
+    nodes, nzb = set(), set()
+    for n, d in enumerate(dicts):
+        for e in d:
+            k = tuple(e["key"])
+            for i in range(len(k)):
+                nodes.add(k[i:])
+            if n < N - 1 and e.get("logb", "0") not in ("0", NEG_INF) and Fraction(e["logb"]) != 0:
+                nzb.add(k)
+    out = set()
+    T = len(case["hist"])
+    for t in range(T + 1):
+        n_dead, c_alive = 1, 0
+        for b in range(B):
+            h = [sos] * (N - 1) + [case["hist"][i][b] for i in range(t)]
+            win = tuple(h[len(h) - (N - 1):])
+            dn = max([d for d in range(1, N) if any(win[N - 1 - d:] + (w,) in nodes for w in range(V))] or [0])
+            dcn = max([d for d in range(2, N) if win[N - 1 - d:] in nodes] or [1])
+            ca = max([d for d in range(1, N) if win[N - 1 - d:] in nzb] or [0])
+            n_dead, c_alive = max(n_dead, dn + 1), max(c_alive, ca)
+            if dn >= dcn + 1 and dn >= 2:
+                out.add("paths:ngram_path_outlives_context_path_by=%d" % min(dn - dcn, 3))
+        if c_alive >= n_dead + 2:
+            # the back-off of a context of length c_alive is added n_dead+1 .. levels after every n-gram path died
+            out.add("paths:nonzero_backoff_%d_levels_after_all_ngram_paths_dead(B=%s)"
+                    % (min(c_alive - n_dead - 1, 3), "1" if B == 1 else ">1"))
+    return sorted(out)
+
+
 LAYOUTS = ("contig", "transposed", "offset", "row_stride", "col_slice", "bf_slice", "bcast")
 
 
@@ -226,6 +362,9 @@ class C06(PropertyCheck):
             for N in (1, 2, 3, 4):
                 dicts = gen_table(rng, V, sos, N, 0.5 if V <= 2 else 0.25, 0.15, 0.7, max_top=12)
                 yield std_case(rng, V, sos, N, rng.randrange(0, 7), rng.randrange(1, 4), dicts)
+        # 1b. designed sparsity of the two descent paths: every (context depth, n-gram depth) pair, evaluated alone
+        # (batch of one), next to a copy of itself and next to a history that matches at the highest order
+        yield from self.path_stream(rng, tier)
         # (order: the small complete streams first - layouts, ARPA option grid, malformed, sizes - so that a slow
         # machine's time budget can only cut into the random bulk, never into a whole class of input)
         # 4b. memory layouts of the history tensor: every kind of view x order x batch width, T >= 3
@@ -297,6 +436,11 @@ class C06(PropertyCheck):
             V = rng.choice((1, 2, 2, 3, 3, 4))
             sos = rng.choice((0, V - 1, -1, V, V + 3, rng.randrange(V)))
             N = rng.choice((1, 2, 2, 3, 3, 3, 4, 4))
+            if rng.random() < 0.15 and N >= 2:
+                V = rng.choice((2, 3, 4, 5))
+                sos = rng.choice((0, -1, V, rng.randrange(V)))
+                yield gen_path_case(rng, V, sos, N, rng.randrange(N), rng.randrange(N), rng.choice(PATH_BATCH))
+                continue
             dens = rng.choice((0.1, 0.3, 0.6, 0.9))
             dicts = gen_table(rng, V, sos, N, dens, rng.choice((0.0, 0.2, 0.5)), rng.choice((0.0, 0.5, 1.0)),
                               max_top=rng.choice((1, 3, 10, 30)))
@@ -322,6 +466,24 @@ class C06(PropertyCheck):
                 idxs.append([rng.choice(ok) for _ in range(B)])
             yield {"kind": "table", "V": V, "sos": sos, "dicts": dicts, "B": B, "hist": hist, "chunks": [],
                    "idxs": idxs, "oov": True}
+
+    def path_stream(self, rng, tier):
+        if tier == "quick":
+            plan = [(3, 1, PATH_BATCH[:1], None), (4, 1, PATH_BATCH, None), (5, 1, PATH_BATCH[:2], 2), (6, 1, PATH_BATCH[:1], 3)]
+        else:
+            plan = [(N, 3, PATH_BATCH, None) for N in (2, 3, 4, 5, 6)]
+        for N, reps, batches, min_gap in plan:
+            for dc in range(N):
+                for dn in range(N):
+                    if min_gap is not None and abs(dc - dn) < min_gap:
+                        continue
+                    for batch in batches:
+                        # the pairs where one path outlives the other by two or more levels are where a shortcut
+                        # in the level loop shows: three tables each
+                        for _ in range(reps * (3 if abs(dc - dn) >= 2 and tier == "quick" else 1)):
+                            V = rng.choice((3, 4, 5) if N <= 4 else (4, 5, 6))
+                            sos = rng.choice((0, -1, V, rng.randrange(V)))
+                            yield gen_path_case(rng, V, sos, N, dc, dn, batch)
 
     def size_case(self, rng, V, sos, what):
         shift = 0 if 0 <= sos < V else 1
@@ -843,6 +1005,10 @@ class C06(PropertyCheck):
         for k in ("oov", "size", "malformed"):
             if case.get(k):
                 t.append(k)
+        if not case.get("malformed") and not case.get("size"):
+            t.extend(path_depths(case))
+        if case.get("paths"):
+            t.append("paths:designed")
         t.append("layout=" + (case.get("layout") or {}).get("kind", "contig"))
         t.append("hist_dtype=" + case.get("hist_dtype", "int64"))
         t.append("ctor=" + case.get("ctor", "positional"))
